@@ -367,13 +367,45 @@ def allReturned (lines : List String) : Bool :=
       | none => go pend ls
   go [] lines
 
+/-- model state after the whole log (`none` if the model rejects some event) -/
+def finalState (cap : Nat) (lines : List String) : Option St :=
+  lines.foldl (fun acc l =>
+    match acc with
+    | none => none
+    | some s =>
+      match (parseLine l).bind ofRaw with
+      | some (some e) => step s e
+      | _ => some s) (some (init cap))
+
+def opName : Option Op → String
+  | some (.send v) => s!"sender(of {v})"
+  | some .recv => "receiver"
+  | none => "?"
+
+/-- the hang oracle, evaluated on the model state the log ends in: a run that did not
+    complete and ended with nobody active and a fiber asleep that could proceed is a LOST
+    WAKE-UP; `lostwake-mixed` = blocked senders and blocked receivers shared the one waiter
+    list in this run (the F-C11 pattern), `lostwake-pure` = they never did (anything else) -/
+def hangOracle (s : St) : Option String :=
+  if quiescent s then
+    match s.fibers.find? (stranded s) with
+    | some f =>
+      let kind := if s.everS && s.everR then "lostwake-mixed" else "lostwake-pure"
+      some s!"{kind}: nobody active, {opName (s.pc f).asleepOp} fiber {f} asleep with {s.high - s.low} of {s.cap} slots used; waiter list {s.wl}"
+    | none => if s.fibers.any (sleeping s) then some "asleep-unservable: sleepers left that no peer can serve (script not matched?)" else none
+  else some "stuck-active: the run stopped while some fiber was still active"
+
 def drive (lines : List String) : IO UInt32 := do
   let cap := capOf (initArgs lines)
   let body := lines.filter (fun l => !isInit l)
   let v := validateP (sys cap) ofRaw body
+  let complete := allReturned body
   -- FIFO: the ring is served in `high` order under one lock, so the order is total
   let cfg : QueueHist.Cfg :=
-    { disc := .fifo, capacity := cap, drained := allReturned body, checkEmpty := false }
-  report "MultiChan" v (Chan.fiberQueueMonitor cfg body)
+    { disc := .fifo, capacity := cap, drained := complete, checkEmpty := false }
+  let mon := match Chan.fiberQueueMonitor cfg body with
+    | some m => some m
+    | none => if complete then none else (finalState cap body).bind hangOracle
+  report "MultiChan" v mon
 
 end LibfiberVerif.MultiChan
